@@ -5,14 +5,14 @@ from .common import *
 from . import c01
 
 META = dict(
-    functions=c01.META['functions'],
+    functions=c01.META['functions'] + ['trx_if.c: trx_data_rx_cb', 'trx_if.c: trx_if_handle_phyif_burst_req'],
     bounds=dict(quick='encoder: all 26 message shapes of C01 with every field/bit symbolic; parser: fully symbolic datagrams of every length within +-3 of each header/burst boundary (0..14, 151..160, 447..458)',
                 thorough='encoder as quick; parser: fully symbolic datagrams of every length 0..520'),
-    stubs=c01.META['stubs'],
+    stubs=c01.META['stubs'] + ['trxcon: shim include directory, read()/send() stubs, recording trxcon_phyif_handle_burst_ind (see vf/checks/trxc.py)'],
     outside=['parser on v0 Rx datagrams whose payload length is not 148/444(+2): accepted by the code for other modulation lengths, the layout does not define them; only header fields are checked there',
-             'trxcon (C) side of the property: see llsym jobs'],
+             'trxcon speaks TRXD version 0 only'],
     assumptions=['the octet layout of DESIGN.md appendix C (transcribed in vf/checks/common.py) is the oracle'],
-    explanation='(a) every octet of gen_msg() equals the layout term; (b) for a fully symbolic datagram of each length, parse_msg either raises ValueError or yields fields equal to the layout reading of the octets')
+    explanation='(c) trx_data_rx_cb (LLVM IR of the real trx_if.c) fed with the layout octets of a symbolic v0 Rx message (148/444 bits, legacy padding on/off) hands L1 the same fn/tn/rssi/toa256/soft bits; (d) trx_if_handle_phyif_burst_req emits exactly the layout octets the toolkit parser reads; together with (a),(b) this gives agreement by transitivity; (a) every octet of gen_msg() equals the layout term; (b) for a fully symbolic datagram of each length, parse_msg either raises ValueError or yields fields equal to the layout reading of the octets')
 
 
 def jobs(tier, seed):
@@ -22,7 +22,24 @@ def jobs(tier, seed):
     for L in lens:
         out.append(('parse.tx.len=%d' % L, 'h_parse', dict(cls='TxMsg', L=L)))
         out.append(('parse.rx.len=%d' % L, 'h_parse', dict(cls='RxMsg', L=L)))
+    for blen in (148, 444):
+        for legacy in (False, True):
+            out.append(('trxcon.rx.%d.%s' % (blen, 'legacy' if legacy else 'plain'), 'c_rx', dict(blen=blen, legacy=legacy)))
+        out.append(('trxcon.tx.%d' % blen, 'c_tx', dict(blen=blen)))
+    out.append(('trxcon.validation', 'c_validate', dict(seed=seed)))
     return out
+
+
+def run_job(hid, fname, shape, timeout_ms):
+    if fname.startswith('c_'):
+        from . import trxc
+        return getattr(trxc, fname)(hid, timeout_ms=timeout_ms, **shape)
+    return core.explore(globals()[fname], hid, shape, timeout_ms=timeout_ms)
+
+
+def replay(body):
+    from . import trxc
+    return trxc.replay(body)
 
 
 def h_enc_tx(ctx, ver, blen, legacy):
